@@ -128,3 +128,21 @@ func (s *EntityComponentStore) VerifSubscriptions() map[uint32][]uint32 {
 	}
 	return out
 }
+
+// VerifSessionGaugeByLabel returns the session_count gauge per label set.
+func VerifSessionGaugeByLabel() map[string]float64 {
+	ch := make(chan prometheus.Metric, 64)
+	go func() { hagallSessionCount.Collect(ch); close(ch) }()
+	out := map[string]float64{}
+	for m := range ch {
+		var d dto.Metric
+		if m.Write(&d) == nil && d.GetGauge() != nil {
+			k := ""
+			for _, l := range d.GetLabel() {
+				k += l.GetName() + "=" + l.GetValue() + ","
+			}
+			out[k] = d.GetGauge().GetValue()
+		}
+	}
+	return out
+}
